@@ -34,6 +34,17 @@ package main
 // C06: "all references when neither a selection option nor a ROOT is given;
 // none when only ROOTs are given": Finish is told whether there are no ROOTs.
 //@   call 0 FlagSet).Args as rootArgs
+// C01: "the chosen roots are the selected references plus any explicit ROOT
+// arguments": every collected reference and every ROOT argument becomes a
+// root (loop 0: references, loop 1: arguments; a ROOT is resolved by git and
+// entered with the object id git gave), and the scan gets exactly that list.
+//@   call 2 FlagSet).Args as rootArgs2
+//@   loop 0 invariant len(roots) == rangeindex + 1
+//@   loop 0 step len(roots) == prev(len(roots)) + 1 && dyntype(roots[len(roots)-1], "sizes.RefRoot") && same(unbox(roots[len(roots)-1], "sizes.RefRoot"), refRoot)
+//@   loop 1 invariant len(roots) == len(refs0) + rangeindex + 1
+//@   call 0 ResolveObject assert same(arg_1, arg)
+//@   loop 1 step len(roots) == prev(len(roots)) + 1 && dyntype(roots[len(roots)-1], "sizes.ExplicitRoot") && unbox(roots[len(roots)-1], "sizes.ExplicitRoot").oid == ro0 && same(unbox(roots[len(roots)-1], "sizes.ExplicitRoot").name, arg)
+//@   call 0 ScanRepositoryUsingGraph assert len(arg_2) == len(refs0) + len(rootArgs2) && same(arg_2, roots)
 //@   call 0 RefGroupBuilder).Finish assert arg_1 == (len(rootArgs) == 0)
 // C18: progress goes to stderr.
 //@   call 0 NewProgressMeter assert arg_0 == stderr
